@@ -177,20 +177,21 @@ fn targets(job: &Value) -> Value {
     let top = &types[wit.ty()];
     let entries: Vec<(String, ItemKind)> = top.exports.iter().map(|(n, k)| (n.clone(), *k)).collect();
     for (name, kind) in entries {
-        let shape = match kind {
+        // Some(Some(w)): world type whose first export is a component; Some(None): world type of another shape
+        let shape: Option<Option<wac_types::WorldId>> = match kind {
             ItemKind::Type(wac_types::Type::World(wid)) => match types[wid].exports.values().next() {
-                Some(ItemKind::Component(w)) => Some(*w),
-                _ => None,
+                Some(ItemKind::Component(w)) => Some(Some(*w)),
+                _ => Some(None),
             },
             _ => None,
         };
         match shape {
-            Some(w) => {
+            Some(Some(w)) => {
                 let v = stage(|| validate_target(&types, w, comp.ty()).map_err(|e| e.to_string()));
                 let vv = match v { Ok(()) => json!({"st":"ok"}), Err((st, m)) => json!({"st":st,"msg":first_line(&m)}) };
                 worlds.push(json!({"name":name,"shape":"world","validate":vv}));
             }
-            None => worlds.push(json!({"name":name,"shape":"other"})),
+            Some(None) | None => worlds.push(json!({"name":name,"shape":"other"})),
         }
     }
     out.insert("worlds".into(), Value::Array(worlds));
